@@ -470,14 +470,17 @@ def check_search(spec: dict) -> dict:
     # which genes does the record's own lookup fail to report for the searched parts (C08's subject)
     lookup_missed = []
     if area_spec:
-        seen = set()
-        for part in to_loc(area_spec).parts:
-            seen.update(id(cds) for cds in record.get_cds_features_within_location(part, with_overlapping=True))
-        by_name = {f"gene{i}": i for i in range(len(genes))}
-        found_names = {cds.get_name() for cds in record.get_cds_features() if id(cds) in seen}
-        for name, index in by_name.items():
-            if gene_bases[index] & area_bases and name not in found_names:
-                lookup_missed.append(index)
+        found_names = set()
+        try:
+            for part in to_loc(area_spec).parts:
+                found_names.update(cds.get_name() for cds in
+                                   record.get_cds_features_within_location(part, with_overlapping=True))
+        except Exception:  # pylint: disable=broad-except
+            found_names = None   # the search itself will fail the same way and be reported as search_total
+        if found_names is not None:
+            for index in range(len(genes)):
+                if gene_bases[index] & area_bases and f"gene{index}" not in found_names:
+                    lookup_missed.append(index)
 
     try:
         with code_under_test("search_total"):
@@ -769,12 +772,12 @@ IUPAC = "ACGTRYSWKMBDHVN"
 
 
 @st.composite
-def dna_chunks(draw, max_codons: int = 30, planted: bool = True) -> str:
+def dna_chunks(draw, max_codons: int = 30, planted: bool = True, min_codons: int = 0, force_plant: bool = False) -> str:
     """ start/stop-rich DNA: codons from the pool, optional planted ORFs on either strand,
         0-2 extra bases at both ends, optional lower case and stray IUPAC letters """
     pool = draw(st.sampled_from((POOL_WEIGHTED, POOL_QUIET, POOL_QUIET[:9])))
-    pieces = list(draw(st.lists(st.sampled_from(pool), min_size=0, max_size=max_codons)))
-    if planted and draw(st.integers(0, 3)) > 0:
+    pieces = list(draw(st.lists(st.sampled_from(pool), min_size=min_codons, max_size=max_codons)))
+    if planted and (force_plant or draw(st.integers(0, 3)) > 0):
         for _ in range(draw(st.integers(1, 3))):
             inner = draw(st.lists(st.sampled_from(("AAA", "CCC", "GCA", "ATG", "CAT", "NNN", "GAT")),
                                   min_size=0, max_size=draw(st.sampled_from((1, 2, 3, 19, 20)))))
@@ -799,7 +802,7 @@ def dna_chunks(draw, max_codons: int = 30, planted: bool = True) -> str:
 
 @st.composite
 def scan_specs(draw):
-    chunk = draw(dna_chunks(max_codons=draw(st.sampled_from((4, 12, 30, 100)))))
+    chunk = draw(dna_chunks(max_codons=draw(st.sampled_from((4, 12, 30, 100))), force_plant=draw(st.integers(0, 2)) > 0))
     size = len(chunk)
     direction = draw(st.sampled_from((1, -1)))
     orf_lengths = sorted({e - b for b, e in ref_orfs(chunk, 0)})
@@ -850,7 +853,7 @@ def gene_layouts(draw, length: int, circular: bool, pad: int, anchors: tuple) ->
         they are adjacent, overlapping, nested or ending close to each other; some tiny, some
         multi-exon, some spanning the origin """
     genes = []
-    count = draw(st.sampled_from((0, 1, 1, 2, 2, 3, 4, 5)))
+    count = draw(st.sampled_from((0, 1, 1, 1, 2, 2, 3, 4, 5)))
     previous = None
     for _ in range(count):
         if length < 3:
@@ -893,7 +896,8 @@ def gene_layouts(draw, length: int, circular: bool, pad: int, anchors: tuple) ->
 
 @st.composite
 def search_specs(draw):
-    seq = draw(dna_chunks(max_codons=draw(st.sampled_from((6, 20, 40, 80, 120)))))
+    max_codons = draw(st.sampled_from((4, 12, 30, 60, 120)))
+    seq = draw(dna_chunks(max_codons=max_codons, min_codons=max_codons // 3, force_plant=draw(st.integers(0, 4)) > 0))
     if len(seq) < 6:
         seq = seq + "ATGAAATAG"
     length = len(seq)
@@ -918,12 +922,13 @@ def search_specs(draw):
     minimum = max(0, draw(st.sampled_from(minima)))
     mode = draw(st.sampled_from(("none", "simple", "cross", "cross") if circular else ("none", "simple")))
     area = None
+    small = 1 if draw(st.integers(0, 5)) == 0 else min(length, 9)
     if mode == "simple":
-        size = draw(gen.coord(1, length))
+        size = draw(gen.coord(small, length))
         start = draw(gen.coord(0, length - size, anchors))
         area = {"parts": [[start, start + size]], "strand": draw(st.sampled_from((1, 1, -1)))}
     elif mode == "cross":
-        size = draw(gen.coord(2, length))
+        size = draw(gen.coord(max(2, small), length))
         start = draw(gen.coord(max(1, length - size + 1), length - 1, anchors))
         area = {"parts": [[start, length], [0, start + size - length]], "strand": 1}
     return {"seq": seq, "circular": circular, "genes": genes, "area": area, "min": minimum, "pad": pad}
@@ -968,8 +973,8 @@ def run(ctx) -> None:
     ctx.enum("search_enum", enum_search(ctx.pick(5, 3), ctx.pick((6, 25), (4, 9, 25)), ctx.pick((0, 4), (0, 2, 4, 10))),
              shards=shards)
     rand_shards = ctx.pick(4, 16)
-    ctx.hyp("scan", scan_specs(), max_examples=ctx.pick(6000, 120000), shards=rand_shards)
-    ctx.hyp("search", search_specs(), max_examples=ctx.pick(4000, 80000), shards=rand_shards)
+    ctx.hyp("scan", scan_specs(), max_examples=ctx.pick(6000, 100000), shards=rand_shards)
+    ctx.hyp("search", search_specs(), max_examples=ctx.pick(4000, 60000), shards=rand_shards)
     ctx.hyp("feature", feature_specs(), max_examples=ctx.pick(1200, 30000), shards=rand_shards)
     ctx.extra["bounds"] = {"scan_enum_max_codons": ctx.pick(4, 6), "scan_enum_all_parameters_up_to_codons": ctx.pick(2, 3),
                            "search_free_max_codons": ctx.pick(3, 4)}
